@@ -5,6 +5,7 @@ import (
 	"fmt"
 	"reflect"
 	"sync"
+	"sync/atomic"
 	"syscall"
 )
 
@@ -546,6 +547,8 @@ func Run(clients []func(), schedule []uint16, maxSteps int) *RunResult {
 	return res
 }
 
+var freeRunning atomic.Int64
+
 // Child is the handle of a goroutine the code under test is about to start.
 type Child struct {
 	s    *schedState
@@ -581,6 +584,10 @@ func Spawn(site string) *Child {
 // the original call and reports that it finished.
 func GoRun(c *Child, fn func()) {
 	if c == nil {
+		// outside a scheduled run the goroutine runs freely; it is counted, because a task that waits while such a
+		// goroutine is alive is not alone and must not make simulated time jump
+		freeRunning.Add(1)
+		defer freeRunning.Add(-1)
 		fn()
 		return
 	}
